@@ -52,6 +52,8 @@ def run(prog, chk):
     chk.obs = [o for o in chk.obs if not (o["key"] in drop)]
     from props import strops
     chk.rule(strops.check_for, prog, chk, "C05")  # A14.str-ops: how this property's strings are cut up is a reviewed, frozen inventory
+    from props import C04 as _C04
+    chk.rule(_C04.filter_closed, prog, chk)  # an attribute of the first pass' output that the second pass withholds (data-src-line from --add-metadata) breaks the fixed point
 
 
 def normalisation_idempotent(prog, chk):
